@@ -5304,6 +5304,7 @@ void UniCompiler::emit_vm(UniOpVM op, const Vec& dst_, const Mem& src_, Alignmen
       }
 
       case UniOpVM::kLoadInsertF32x2: {
+        dst = dst.xmm();
         if (idx == 0)
           cc->emit(Inst::kIdVmovlps, dst, dst, src);
         else
@@ -5312,6 +5313,7 @@ void UniCompiler::emit_vm(UniOpVM op, const Vec& dst_, const Mem& src_, Alignmen
       }
 
       case UniOpVM::kLoadInsertF64: {
+        dst = dst.xmm();
         if (idx == 0)
           cc->emit(Inst::kIdVmovlpd, dst, dst, src);
         else
